@@ -133,6 +133,15 @@ class Gen:
                 fr["precur"].append({"k": "go", "far": far, "needs": self.needs(prog, name, auxnames), "transit": []})
             if condaux and r.random() < 0.2:
                 fr["precur"].append({"k": "auxif", "aux": r.choice(list(condaux)), "needs": self.needs(prog, name, (), 1)})
+            # timeout / repeat: implicit transitions to the lexically next frame
+            nxt = keys.index(key) + 1
+            if self.has("clocks") and nxt < len(keys) and r.random() < 0.35:
+                if r.random() < 0.5:
+                    n = need("elapsed", False, op=">=", goal=r.randint(0, 4) * prog["tick"] + r.choice((0, 0, 1)))
+                    fr["precur"].append({"k": "go", "far": keys[nxt], "needs": [n], "transit": [], "sugar": "timeout"})
+                else:
+                    n = need("recurred", False, op=">=", goal=r.randint(0, 4))
+                    fr["precur"].append({"k": "go", "far": keys[nxt], "needs": [n], "transit": [], "sugar": "repeat"})
             # bids
             if self.has("bids") and others and r.random() < 0.3:
                 ctl = r.choice(("stop", "start", "start", "abort", "run", "ready"))
